@@ -233,8 +233,12 @@ def world_case(chk, rng, wi, nconv=30):
     if rogue:
         steps.extend(rogue[0])
     linear = [t for t in w.types.values() if t.has_ref]
+    subs_ref = [w.types[d.p["name"]] for d in plan
+                if d.kind == "subclass" and d.p.get("ref")]
     for j in range(nconv):
-        t = rng.choice(linear)
+        # the first few inside a subclass that has a reference unit of its
+        # own (it does not share its parent's quantum)
+        t = rng.choice(subs_ref) if subs_ref and j < 4 else rng.choice(linear)
         us = [u.sym for u in w.units_of(t.name)]
         s1, s2 = rng.choice(us), rng.choice(us)
         s3 = rng.choice(us) if rng.random() < 0.5 else None
@@ -243,6 +247,30 @@ def world_case(chk, rng, wi, nconv=30):
             s["k"] = "c%d.%s" % (j, s["k"])
         subs.append((j, st, s1, s2, s3, kind))
         steps.extend(st)
+    # conversions to a unit of another type of this world; where the world
+    # has a subclass with a reference unit of its own, between the subclass
+    # and its parent (they are different quantity types)
+    cross = []
+    fam = [(d.p["name"], d.p["parent"]) for d in plan
+           if d.kind == "subclass" and d.p.get("ref")]
+    for j in range(6):
+        if fam and j < 4:
+            a, b = rng.choice(fam)
+            if j % 2:
+                a, b = b, a
+        else:
+            a, b = rng.choice(list(w.types)), rng.choice(list(w.types))
+        ua = [u.sym for u in w.units_of(a)]
+        ub = [u.sym for u in w.units_of(b)]
+        if a == b or not ua or not ub:
+            continue
+        s1, s2 = rng.choice(ua), rng.choice(ub)
+        e, _ = enc_amount(rng, rand_fraction(rng, small=True),
+                          ("D", "F", "int"))
+        st = [{"k": "x%d.r" % j, "e": M(Q(e, s1), "convert", U(s2))},
+              {"k": "x%d.ea" % j, "e": M(Q(e, s1), "equiv_amount", U(s2))}]
+        steps.extend(st)
+        cross.append((j, s1, s2, st, (a, b) in fam or (b, a) in fam))
     depth = _max_depth(plan)
 
     def judge(obs, rec, case):
@@ -259,6 +287,23 @@ def world_case(chk, rng, wi, nconv=30):
             rogue[1](obs)
         if depth >= 3:
             chk.count("worlds with definition chain depth >= 3")
+        for j, s1, s2, st, related in cross:
+            chk.case((wid, "cross", s1, s2))
+            chk.count("cross-type rejections in worlds")
+            if related:
+                chk.count("conversions between a subclass and its parent "
+                          "type")
+            for k in ("r", "ea"):
+                r = obs.get("x%d.%s" % (j, k))
+                if not is_exc(r, "IncompatibleUnitsError"):
+                    chk.violation(
+                        "%s: %s to unit %s of another type%s: expected "
+                        "IncompatibleUnitsError, got %s" %
+                        (wid, s1, s2, " (subclass / parent)" if related
+                         else "", brief(r)),
+                        dict(obs={kk: v for kk, v in obs.items()
+                                  if kk.startswith("x%d." % j)}, steps=st,
+                             declarations=planj), "cross-type")
         for j, st, s1, s2, s3, kind in subs:
             pre = "c%d." % j
             sub = {k[len(pre):]: v for k, v in obs.items()
@@ -288,6 +333,7 @@ def run(chk, R, tier, seed):
               "unit-kind|scaled", "worlds",
               "worlds with a deviating converter registered on a type with "
               "reference unit",
+              "conversions between a subclass and its parent type",
               "worlds with definition chain depth >= 3", "quantized"):
         chk.require(c)
     cases = predefined_cases(chk, rng, tier)
